@@ -617,6 +617,51 @@ fn constructors(run: &Run) {
         }
     }
 
+    // is_symmetric (slice and method), is_positive_definite: one mirror entry of a symmetric matrix changed
+    // (sign flipped, or moved by a relative amount well above the comparison's tolerance) is not symmetric;
+    // the unchanged matrix, whatever its scale, is
+    for n in 2..=5usize {
+        for &(scale, nm) in &[(1.0, "unit"), (1e-200, "tiny"), (1e200, "huge"), (-3.0, "negative")] {
+            let base: Vec<f64> = (0..n * n).map(|t| (((t / n).min(t % n) * 5 + (t / n).max(t % n)) as f64 + if t / n == t % n { 40.0 } else { 1.0 }) * scale).collect();
+            run.case();
+            run.trs(2);
+            run.ok();
+            let mb = Matrix::new(base.clone(), n as i32, n as i32);
+            if !linalg::is_symmetric(&base) || !mb.is_symmetric() {
+                run.violate("predicate/is_symmetric/rejects-symmetric", || format!("{} symmetric {}x{} not recognised", nm, n, n));
+            }
+            for i in 0..n {
+                for j in 0..i {
+                    for (k, change) in [-1.0, 1.0 + 1e-3, 1.0 - 1e-9, 1.0 + 64.0 * f64::EPSILON, 0.0, 2.0].iter().enumerate() {
+                        let mut a = base.clone();
+                        a[i * n + j] *= change;
+                        run.case();
+                        run.trs(3);
+                        run.ok();
+                        run.nontrivial(1);
+                        let m = Matrix::new(a.clone(), n as i32, n as i32);
+                        let (s1, s2, pd) = (linalg::is_symmetric(&a), m.is_symmetric(), m.is_positive_definite());
+                        run.outcome(&("sym-one-entry", k, s1, s2, pd));
+                        if s1 || s2 {
+                            run.violate("predicate/is_symmetric/accepts-asymmetric", || {
+                                format!("{} {}x{}: entry ({},{}) = {:e} against its mirror {:e} is called symmetric (slice {}, method {})", nm, n, n, i, j, a[i * n + j], a[j * n + i], s1, s2)
+                            });
+                        }
+                        if pd {
+                            run.violate("predicate/is_positive_definite/accepts-asymmetric", || format!("{} {}x{}: entry ({},{}) = {:e} against its mirror {:e}", nm, n, n, i, j, a[i * n + j], a[j * n + i]));
+                        }
+                    }
+                }
+            }
+            // antisymmetric off-diagonal part (rotation-like)
+            let anti: Vec<f64> = (0..n * n).map(|t| if t / n < t % n { -base[t] } else { base[t] }).collect();
+            let ma = Matrix::new(anti.clone(), n as i32, n as i32);
+            if linalg::is_symmetric(&anti) || ma.is_symmetric() {
+                run.violate("predicate/is_symmetric/accepts-asymmetric", || format!("{} {}x{} with antisymmetric off-diagonal part is called symmetric", nm, n, n));
+            }
+        }
+    }
+
     // ---- arange / linspace ----------------------------------------------------------------
     let starts = [-2.0, -0.5, 0.0, 0.25, 1.0, 10.0];
     let spans = [0.0, 0.3, 0.5, 0.6, 0.7, 1.0, 2.5, 4.0, 7.3, 10.0, 63.0];
@@ -754,7 +799,7 @@ fn constructors(run: &Run) {
     let vals = [0.0, 1.0, -1.0, 1.0 + 2.220446049250313e-16, -(1.0 + 2.220446049250313e-16), 2.0, -2.0, 1e3, -1e3, -0.0, 1e-17, -1e-17, 1e-200, -1e-200, 5e-324, -5e-324, 1e-7, -1e-7, 1e300, -1e300];
     for &a in &vals {
         for &b in &vals {
-            for &tol in &[1e-12, 1e-6, 0.5] {
+            for &tol in &[0.0, 1e-12, 1e-6, 0.5] {
                 run.case();
                 run.trs(3);
                 run.ok();
